@@ -141,8 +141,9 @@ impl UserFunction for TFn {
             s.entries.push(Entry { eval, func: name, arg: param.clone(), outcome: outcome.clone() });
             outcome
         };
-        if self.desc.suspend > 0 {
-            YieldN(self.desc.suspend).await;
+        let suspend = self.desc.suspend + EXTRA_SUSPEND.load(std::sync::atomic::Ordering::Relaxed);
+        if suspend > 0 {
+            YieldN(suspend).await;
         }
         if self.desc.kind == Kind::ER {
             return Err(anyhow::Error::new(reval::Error::InvalidType));
@@ -170,6 +171,10 @@ impl UserFunction for TFn {
         self.desc.cacheable
     }
 }
+
+/// added to every function's suspension count (C05 replays each history with all functions suspending: operands that are polled
+/// concurrently, or started before the previous one has finished, only show when a call returns Pending)
+pub static EXTRA_SUSPEND: std::sync::atomic::AtomicUsize = std::sync::atomic::AtomicUsize::new(0);
 
 /// what every "tg…" function answers from `cacheable()` right now (each shard is a single-threaded process)
 pub static TOGGLE_CACHEABLE: std::sync::atomic::AtomicBool = std::sync::atomic::AtomicBool::new(true);
